@@ -13,3 +13,37 @@ def meek_s2(case, viol):
     from .props.C08 import in_S1
     c = case.get('case', case)
     return c.get('rule') in ('meek', 'warren') and not in_S1(c)
+
+
+def meek_resolution(case, viol):
+    """F04: a Meek/Warren failure that disappears when the same election is counted with 12 more digits (same omega):
+    the arithmetic's resolution was exhausted (a keep factor of the order omega/ballots is not representable).
+    Either the options are outside stratum S1, or the electorate is huge relative to the precision."""
+    from . import drive
+    c = case.get('case', case)
+    if c.get('rule') not in ('meek', 'warren'):
+        return False
+    o = dict(c.get('options') or {})
+    a = o.get('arithmetic', 'guarded')
+    if a not in ('fixed', 'guarded'):
+        return False
+    if a == 'fixed':
+        p = o.get('precision', 9)
+        omega = o.get('omega', p * 2 // 3)
+        o.update(precision=p + 12, omega=omega)
+    else:
+        p = o.get('precision', 18)
+        g = o.get('guard', p // 2)
+        omega = o.get('omega', p // 2)
+        o.update(arithmetic='guarded', precision=p, guard=g + 12, omega=omega)
+    o.pop('display', None)
+    try:
+        twin = drive.run(dict(c, options=o))
+    except Exception:      # pylint: disable=broad-except
+        return False
+    return twin.exc is None and not twin.budget_hit and twin.stage == 'done' and \
+        len(twin.elected) == min(c['nseats'], c['ncand'] - len(c.get('withdrawn') or []))
+
+
+def meek_s2_or_resolution(case, viol):
+    return meek_s2(case, viol) or meek_resolution(case, viol)
